@@ -58,7 +58,8 @@ BaseDecl == [in |-> "query", enc |-> "", name |-> NameLim, type |-> "string", fo
 
 Locations == { <<"query", "">>, <<"header", "">>, <<"path", "">>, <<"formData", "urlencoded">>, <<"formData", "multipart">> }
 
-Init == phase = "kind" /\ d = BaseDecl /\ req = [pairs |-> <<>>, seg |-> <<>>]
+NoReq == [pairs |-> <<>>, seg |-> <<>>, other |-> <<>>, oenc |-> ""]
+Init == phase = "kind" /\ d = BaseDecl /\ req = NoReq
 
 \* 1. location, name, type
 ChooseKind ==
@@ -123,6 +124,16 @@ ArrayTexts ==
 Pair(k, v) == [k |-> k, v |-> v, bare |-> FALSE, file |-> FALSE, fn |-> <<>>]
 FilePair(k, v) == [k |-> k, v |-> v, bare |-> FALSE, file |-> TRUE, fn |-> <<102>>]
 
+\* the same key sent in the opposite location (query string of a form post / body of a query request): must be ignored
+Others ==
+  LET et == IF d.type = "array" THEN d.itype ELSE d.type
+      ef == IF d.type = "array" THEN d.iformat ELSE d.format
+      encs == IF d.in = "formData" THEN {""} ELSE {"urlencoded", "multipart"}
+  IN IF d.in \in {"formData", "query"} /\ d.type # "file"
+     THEN {<<<<>>, "">>} \cup { <<<<Pair(d.name, t)>>, e>> : t \in ({BadText(et, ef)} \cup IF Thorough THEN {GoodText(et, ef)} ELSE {}), e \in encs }
+     ELSE {<<<<>>, "">>}
+Mk(ps, sg) == \E o \in Others : req' = [pairs |-> ps, seg |-> sg, other |-> o[1], oenc |-> o[2]]
+
 \* 3. the request
 ChooseRequest ==
   /\ phase = "req"
@@ -134,21 +145,21 @@ ChooseRequest ==
          keys  == IF d.in = "header" THEN HdrNames ELSE {d.name}
          other == IF d.in = "header" THEN {HdrOther} ELSE QueryOtherKeys
      IN IF d.in = "path"
-        THEN \E t \in (texts \ {<<>>}) : req' = [pairs |-> <<>>, seg |-> t]
+        THEN \E t \in (texts \ {<<>>}) : Mk(<<>>, t)
         ELSE IF d.type = "file"
-        THEN \/ req' = [pairs |-> <<>>, seg |-> <<>>]
-             \/ \E t \in texts : req' = [pairs |-> <<FilePair(d.name, t)>>, seg |-> <<>>]
-             \/ \E t \in texts : req' = [pairs |-> <<Pair(d.name, t)>>, seg |-> <<>>]                     \* a value part, not a file
-             \/ \E t \in texts : req' = [pairs |-> <<FilePair(d.name, t), FilePair(d.name, <<>>)>>, seg |-> <<>>]
-        ELSE \/ req' = [pairs |-> <<>>, seg |-> <<>>]                                                      \* absent
-             \/ \E t \in texts : req' = [pairs |-> <<Pair(d.name, t)>>, seg |-> <<>>]                     \* every text, declared spelling
-             \/ \E k \in keys \cup other, t \in few : req' = [pairs |-> <<Pair(k, t)>>, seg |-> <<>>]         \* other spellings / other keys
+        THEN \/ Mk(<<>>, <<>>)
+             \/ \E t \in texts : Mk(<<FilePair(d.name, t)>>, <<>>)
+             \/ \E t \in texts : Mk(<<Pair(d.name, t)>>, <<>>)                     \* a value part, not a file
+             \/ \E t \in texts : Mk(<<FilePair(d.name, t), FilePair(d.name, <<>>)>>, <<>>)
+        ELSE \/ Mk(<<>>, <<>>)                                                      \* absent
+             \/ \E t \in texts : Mk(<<Pair(d.name, t)>>, <<>>)                     \* every text, declared spelling
+             \/ \E k \in keys \cup other, t \in few : Mk(<<Pair(k, t)>>, <<>>)         \* other spellings / other keys
              \/ \E k1 \in keys, k2 \in keys \cup other, t1 \in few, t2 \in few :                                \* two occurrences
-                    (Thorough \/ k1 = d.name \/ k2 = d.name) /\ req' = [pairs |-> <<Pair(k1, t1), Pair(k2, t2)>>, seg |-> <<>>]
+                    (Thorough \/ k1 = d.name \/ k2 = d.name) /\ Mk(<<Pair(k1, t1), Pair(k2, t2)>>, <<>>)
              \/ /\ Thorough                                                                                    \* every text first / last of two
                 /\ \E t \in texts, t2 \in {good, <<>>} :
-                     \/ req' = [pairs |-> <<Pair(d.name, t), Pair(d.name, t2)>>, seg |-> <<>>]
-                     \/ req' = [pairs |-> <<Pair(d.name, t2), Pair(d.name, t)>>, seg |-> <<>>]
+                     \/ Mk(<<Pair(d.name, t), Pair(d.name, t2)>>, <<>>)
+                     \/ Mk(<<Pair(d.name, t2), Pair(d.name, t)>>, <<>>)
   /\ phase' = "done" /\ UNCHANGED d
 
 Next == ChooseKind \/ ChooseFlags \/ ChooseRequest
